@@ -405,13 +405,30 @@ func concreteClass(c string, r *rand.Rand) string {
 	return c
 }
 
+// retryAfter: what a rate-limiting / overloaded authenticator may add to a 429 / 503 (it asks the CLIENT to wait; it
+// does not vouch for anybody in the meantime)
+func retryAfter(class string, r *rand.Rand) string {
+	if (class != "s429" && class != "s503") || r.Intn(2) == 0 {
+		return ""
+	}
+	switch r.Intn(4) {
+	case 0:
+		return "3600"
+	case 1:
+		return "86400"
+	case 2:
+		return time.Now().Add(2 * time.Hour).UTC().Format(http.TimeFormat)
+	}
+	return "120"
+}
+
 func script(a Ans, r *rand.Rand) map[string]world.Answer {
 	s := map[string]world.Answer{}
 	if a.Refresh != "na" {
-		s["refresh"] = world.Answer{Class: concreteClass(a.Refresh, r), ExpiresIn: int64(a.Rexp)*1000 + 500, Token: "at-new"}
+		s["refresh"] = world.Answer{Class: concreteClass(a.Refresh, r), ExpiresIn: int64(a.Rexp)*1000 + 500, Token: "at-new", RetryAfter: retryAfter(a.Refresh, r)}
 	}
 	if a.Validate != "na" {
-		s["validate"] = world.Answer{Class: concreteClass(a.Validate, r)}
+		s["validate"] = world.Answer{Class: concreteClass(a.Validate, r), RetryAfter: retryAfter(a.Validate, r)}
 	}
 	switch a.Profile {
 	case "na":
@@ -420,7 +437,7 @@ func script(a Ans, r *rand.Rand) map[string]world.Answer {
 	case "nonmember":
 		s["profile"] = world.Answer{Class: "deny", Groups: [][]string{{}, {"other"}, {"ENG"}, {"eng "}, {"engx", "xeng"}}[r.Intn(5)]}
 	default:
-		s["profile"] = world.Answer{Class: concreteClass(a.Profile, r)}
+		s["profile"] = world.Answer{Class: concreteClass(a.Profile, r), RetryAfter: retryAfter(a.Profile, r)}
 	}
 	return s
 }
